@@ -1,26 +1,59 @@
 package main
 
-// C19, a static fact of its own: a goroutine (or deferred) function literal started inside a loop that reads the loop's
-// variable. /repo's go.mod says `go 1.14`, so — whatever toolchain compiles it — every iteration shares ONE variable: the loop
+// C19, a static fact of its own: code started concurrently (go) or later (defer, time.AfterFunc) inside a loop that reaches the
+// loop's variable. /repo's go.mod says `go 1.14`, so — whatever toolchain compiles it — every iteration shares ONE variable: the loop
 // writes it while the started goroutines read it (a data race), and in practice every goroutine sees the last element.
 // `go vet` only reports the case where the go statement is the last statement of the body. /repo had exactly this defect once
 // (handleTxsMsg, fix b496d03). The committed list is empty; a new site is a table mismatch and an oracle failure.
+// Rewritten after review R5-M6/M7: identity by the parser's object resolution instead of by name (no false report for a field, a
+// parameter, a literal-local or a nested re-binding of the same name), more capture shapes (see c19LoopVarCaptures), loops that
+// assign an outer variable, package-level function literals, and the go directive of go.mod is read.
+// STILL NOT SEEN (no type information): `go v.M()` with a pointer-receiver method on an addressable loop variable; a closure stored
+// in the loop and started after it; starters other than go / defer / time.AfterFunc that run their argument concurrently.
 
 import (
 	"fmt"
 	"go/ast"
 	"go/parser"
 	"go/token"
+	"io/ioutil"
 	"os"
 	"path/filepath"
+	"regexp"
 	"sort"
+	"strconv"
 	"strings"
 )
 
 type c19LoopVar struct{ Fn, Var string }
 
+// c19PerIterationLoopVars: does the module's go directive (>= 1.22) give `:=` loops a fresh variable per iteration?
+func c19PerIterationLoopVars(repo string) bool {
+	b, err := ioutil.ReadFile(filepath.Join(repo, "go.mod"))
+	if err != nil {
+		return false
+	}
+	m := regexp.MustCompile(`(?m)^go\s+(\d+)\.(\d+)`).FindStringSubmatch(string(b))
+	if m == nil {
+		return false
+	}
+	maj, _ := strconv.Atoi(m[1])
+	min, _ := strconv.Atoi(m[2])
+	return maj > 1 || (maj == 1 && min >= 22)
+}
+
+// c19LoopVarCaptures lists (function, variable) where code STARTED CONCURRENTLY (go) or LATER (defer, time.AfterFunc) from inside a
+// loop reaches the loop's shared variable.  Identity is by the parser's object resolution (ast.Ident.Obj), not by name, so a field,
+// a parameter, a literal-local variable or a re-binding `v := v` (at any depth) of the same name is a different object.  Shapes:
+//   go/defer func(){ ..v.. }()                         the literal reads v
+//   f := func(){ ..v.. }; go f()                       a local bound (in the loop body) to such a literal
+//   go spawn(func(){ ..v.. }) / go use(&v)             a literal reading v, or v's address, among the arguments of a go/defer call
+//   time.AfterFunc(d, func(){ ..v.. })                 the one standard starter used in /repo
+// Loops: `for k, v := range`, `for i := ..` (shared before go 1.22) and loops that ASSIGN an outer local (`for _, v = range`, shared
+// under every version).  Whole files are walked (function declarations and package-level function literals).
 func c19LoopVarCaptures(repo string) ([]c19LoopVar, error) {
 	var out []c19LoopVar
+	perIter := c19PerIterationLoopVars(repo)
 	fset := token.NewFileSet()
 	err := filepath.Walk(repo, func(path string, info os.FileInfo, err error) error {
 		if err != nil {
@@ -36,114 +69,45 @@ func c19LoopVarCaptures(repo string) ([]c19LoopVar, error) {
 		if !strings.HasSuffix(path, ".go") || strings.HasSuffix(path, "_test.go") || strings.HasPrefix(info.Name(), "verif_") {
 			return nil
 		}
-		f, perr := parser.ParseFile(fset, path, nil, 0)
+		f, perr := parser.ParseFile(fset, path, nil, 0) // object resolution ON
 		if perr != nil {
 			return nil // a file that does not parse breaks the build anyway
 		}
 		rel, _ := filepath.Rel(repo, path)
 		pkgDir := filepath.ToSlash(filepath.Dir(rel))
 		for _, d := range f.Decls {
-			fd, ok := d.(*ast.FuncDecl)
-			if !ok || fd.Body == nil {
+			var root ast.Node
+			name := ""
+			switch x := d.(type) {
+			case *ast.FuncDecl:
+				if x.Body == nil {
+					continue
+				}
+				root, name = x.Body, x.Name.Name
+				if x.Recv != nil && len(x.Recv.List) == 1 {
+					t := x.Recv.List[0].Type
+					if st, ok := t.(*ast.StarExpr); ok {
+						t = st.X
+					}
+					if id, ok := t.(*ast.Ident); ok {
+						name = id.Name + "." + name
+					}
+				}
+			case *ast.GenDecl:
+				if x.Tok != token.VAR {
+					continue
+				}
+				root = x
+				for _, sp := range x.Specs {
+					if vs, ok := sp.(*ast.ValueSpec); ok && len(vs.Names) > 0 {
+						name = "var:" + vs.Names[0].Name
+						break
+					}
+				}
+			default:
 				continue
 			}
-			name := fd.Name.Name
-			if fd.Recv != nil && len(fd.Recv.List) == 1 {
-				t := fd.Recv.List[0].Type
-				if st, ok := t.(*ast.StarExpr); ok {
-					t = st.X
-				}
-				if id, ok := t.(*ast.Ident); ok {
-					name = id.Name + "." + name
-				}
-			}
-			fn := pkgDir + ":" + name
-			ast.Inspect(fd.Body, func(n ast.Node) bool {
-				var vars []string
-				var body *ast.BlockStmt
-				switch x := n.(type) {
-				case *ast.RangeStmt:
-					if x.Tok != token.DEFINE {
-						return true
-					}
-					for _, e := range []ast.Expr{x.Key, x.Value} {
-						if id, ok := e.(*ast.Ident); ok && id.Name != "_" {
-							vars = append(vars, id.Name)
-						}
-					}
-					body = x.Body
-				case *ast.ForStmt:
-					if as, ok := x.Init.(*ast.AssignStmt); ok && as.Tok == token.DEFINE {
-						for _, e := range as.Lhs {
-							if id, ok := e.(*ast.Ident); ok && id.Name != "_" {
-								vars = append(vars, id.Name)
-							}
-						}
-					}
-					body = x.Body
-				default:
-					return true
-				}
-				if len(vars) == 0 || body == nil {
-					return true
-				}
-				// a re-binding `v := v` at the top level of the body gives each iteration its own copy from there on
-				rebound := map[string]token.Pos{}
-				for _, st := range body.List {
-					if as, ok := st.(*ast.AssignStmt); ok && as.Tok == token.DEFINE && len(as.Lhs) == len(as.Rhs) {
-						for i := range as.Lhs {
-							l, ok1 := as.Lhs[i].(*ast.Ident)
-							r, ok2 := as.Rhs[i].(*ast.Ident)
-							if ok1 && ok2 && l.Name == r.Name {
-								rebound[l.Name] = as.Pos()
-							}
-						}
-					}
-				}
-				ast.Inspect(body, func(m ast.Node) bool {
-					var call *ast.CallExpr
-					switch y := m.(type) {
-					case *ast.GoStmt:
-						call = y.Call
-					case *ast.DeferStmt:
-						call = y.Call
-					default:
-						return true
-					}
-					lit, ok := call.Fun.(*ast.FuncLit)
-					if !ok {
-						return true
-					}
-					params := map[string]bool{}
-					if lit.Type.Params != nil {
-						for _, p := range lit.Type.Params.List {
-							for _, id := range p.Names {
-								params[id.Name] = true
-							}
-						}
-					}
-					for _, v := range vars {
-						if params[v] {
-							continue
-						}
-						if p, ok := rebound[v]; ok && p < m.Pos() {
-							continue
-						}
-						used := false
-						ast.Inspect(lit.Body, func(z ast.Node) bool {
-							if id, ok := z.(*ast.Ident); ok && id.Name == v {
-								used = true
-							}
-							return !used
-						})
-						if used {
-							out = append(out, c19LoopVar{fn, v})
-						}
-					}
-					return true
-				})
-				return true
-			})
+			out = append(out, c19ScanLoops(root, pkgDir+":"+name, perIter)...)
 		}
 		return nil
 	})
@@ -153,7 +117,6 @@ func c19LoopVarCaptures(repo string) ([]c19LoopVar, error) {
 		}
 		return out[i].Var < out[j].Var
 	})
-	// de-duplicate (nested loops report an inner literal once per enclosing loop that declares the variable)
 	var ded []c19LoopVar
 	for i, x := range out {
 		if i == 0 || x != out[i-1] {
@@ -161,6 +124,150 @@ func c19LoopVarCaptures(repo string) ([]c19LoopVar, error) {
 		}
 	}
 	return ded, err
+}
+
+func c19ScanLoops(root ast.Node, fn string, perIter bool) (out []c19LoopVar) {
+	ast.Inspect(root, func(n ast.Node) bool {
+		var objs []*ast.Object
+		var body *ast.BlockStmt
+		add := func(e ast.Expr, define bool) {
+			id, ok := e.(*ast.Ident)
+			if !ok || id.Name == "_" || id.Obj == nil || id.Obj.Kind != ast.Var {
+				return
+			}
+			if define && perIter {
+				return // go >= 1.22: a fresh variable per iteration
+			}
+			objs = append(objs, id.Obj)
+		}
+		switch x := n.(type) {
+		case *ast.RangeStmt:
+			if x.Tok != token.DEFINE && x.Tok != token.ASSIGN {
+				return true
+			}
+			add(x.Key, x.Tok == token.DEFINE)
+			add(x.Value, x.Tok == token.DEFINE)
+			body = x.Body
+		case *ast.ForStmt:
+			if as, ok := x.Init.(*ast.AssignStmt); ok {
+				for _, e := range as.Lhs {
+					add(e, as.Tok == token.DEFINE)
+				}
+			}
+			body = x.Body
+		default:
+			return true
+		}
+		if len(objs) == 0 || body == nil {
+			return true
+		}
+		reads := func(node ast.Node, o *ast.Object) bool {
+			used := false
+			ast.Inspect(node, func(z ast.Node) bool {
+				if id, ok := z.(*ast.Ident); ok && id.Obj == o {
+					used = true
+				}
+				return !used
+			})
+			return used
+		}
+		// locals of the body bound to a function literal: f := func(){..}, var f = func(){..}, f = func(){..}
+		bound := map[*ast.Object][]*ast.FuncLit{}
+		ast.Inspect(body, func(m ast.Node) bool {
+			switch y := m.(type) {
+			case *ast.AssignStmt:
+				if len(y.Lhs) == len(y.Rhs) {
+					for i := range y.Lhs {
+						if id, ok := y.Lhs[i].(*ast.Ident); ok && id.Obj != nil {
+							if lit, ok := y.Rhs[i].(*ast.FuncLit); ok {
+								bound[id.Obj] = append(bound[id.Obj], lit)
+							}
+						}
+					}
+				}
+			case *ast.ValueSpec:
+				if len(y.Names) == len(y.Values) {
+					for i := range y.Names {
+						if lit, ok := y.Values[i].(*ast.FuncLit); ok && y.Names[i].Obj != nil {
+							bound[y.Names[i].Obj] = append(bound[y.Names[i].Obj], lit)
+						}
+					}
+				}
+			}
+			return true
+		})
+		// does running `call` later / concurrently reach the loop variable o?
+		reaches := func(call *ast.CallExpr, o *ast.Object, argsOnly bool) bool {
+			if !argsOnly {
+				switch fx := call.Fun.(type) {
+				case *ast.FuncLit:
+					if reads(fx.Body, o) {
+						return true
+					}
+				case *ast.Ident:
+					for _, lit := range bound[fx.Obj] {
+						if fx.Obj != nil && reads(lit.Body, o) {
+							return true
+						}
+					}
+				}
+			}
+			for _, a := range call.Args {
+				hit := false
+				ast.Inspect(a, func(z ast.Node) bool {
+					switch w := z.(type) {
+					case *ast.FuncLit:
+						if reads(w.Body, o) {
+							hit = true
+						}
+						return false
+					case *ast.UnaryExpr:
+						if id, ok := w.X.(*ast.Ident); ok && w.Op == token.AND && id.Obj == o {
+							hit = true
+						}
+					case *ast.Ident: // a local bound to a literal, passed on
+						for _, lit := range bound[w.Obj] {
+							if w.Obj != nil && reads(lit.Body, o) {
+								hit = true
+							}
+						}
+					}
+					return !hit
+				})
+				if hit {
+					return true
+				}
+			}
+			return false
+		}
+		ast.Inspect(body, func(m ast.Node) bool {
+			var call *ast.CallExpr
+			argsOnly := false
+			switch y := m.(type) {
+			case *ast.GoStmt:
+				call = y.Call
+			case *ast.DeferStmt:
+				call = y.Call
+			case *ast.CallExpr:
+				if se, ok := y.Fun.(*ast.SelectorExpr); ok && se.Sel.Name == "AfterFunc" {
+					if p, ok := se.X.(*ast.Ident); ok && p.Name == "time" {
+						call, argsOnly = y, true
+					}
+				}
+			}
+			if call == nil {
+				return true
+			}
+			for _, o := range objs {
+				if reaches(call, o, argsOnly) {
+					out = append(out, c19LoopVar{fn, o.Name})
+				}
+			}
+			return true
+		})
+		return true
+	})
+	return
 }
 
 func c19LoopVarFacts(c *Ctx) {
